@@ -124,7 +124,8 @@ fn dec_context_default() -> DecContext {
 
 /// Converts a string into decimal.
 pub fn dec_from_string(s: &str) -> DecQuad {
-  let c_s = CString::new(s).unwrap();
+  // (a text holding the character U+0000 is no number)
+  let c_s = CString::new(s).unwrap_or_else(|_| CString::new("NaN").unwrap());
   let mut value = DecQuad::default();
   unsafe {
     decQuadFromString(&mut value, c_s.as_ptr(), &mut DEFAULT_CONTEXT.clone());
